@@ -391,7 +391,14 @@ def check_worker_case(seed, acc):
     if any(e[0] == "MOVED" for e in RD._walk(e_)):
         acc.count("diff_worker_runs_with_moved_rows")
     acc.case(["worker", vname, text, po, pn], nontrivial=bool(e_))
-    if g_ != e_:
+    def fam(entries):
+        # entries of different rules may come in either order (the diff is built per diff logic, and which logic goes first depends on the rows both
+        # sides hold, e.g. completed defaults); the entries of one command family keep their order
+        out = {}
+        for op, row, ch in entries:
+            out.setdefault(row.split()[1] if row.startswith(prefix + " ") and len(row.split()) > 1 else row.split()[0], []).append((op, row, fam(ch)))
+        return out
+    if fam(g_) != fam(e_):
         acc.violation("C03/diff-worker-differs-from-make_diff", "the `annet diff` worker reports other entries than make_diff gives for the device's and the generated configuration",
                       dict(w, worker=RD.canon(g_), expected=RD.canon(e_)))
 
